@@ -212,7 +212,7 @@ func firstByte(ps *PrintState, node Node, precedence Priority) byte {
 		if ps.AllParens || prec < precedence {
 			return '('
 		}
-		if _, leftIsInt := n.Left.(*IntegerLiteral); leftIsInt && n.Type() == token.DOT {
+		if n.Type() == token.DOT && dotNeedsParens(n.Left) {
 			return '(' // printed (1).x
 		}
 		return firstByte(ps, n.Left, prec)
@@ -644,6 +644,16 @@ type IndexExpression struct {
 	Index Node
 }
 
+// dotNeedsParens: 1.x would be read as the float `1.` followed by x; also for an integer literal too big for int64,
+// which is a float node spelled without a dot. (Used by the printer and by firstByte, which must agree.)
+func dotNeedsParens(left Node) bool {
+	if _, ok := left.(*IntegerLiteral); ok {
+		return true
+	}
+	fl, ok := left.(*FloatLiteral)
+	return ok && !strings.ContainsAny(fl.Literal(), ".eE")
+}
+
 func (ie IndexExpression) PrettyPrint(out *PrintState) *PrintState {
 	needParen, oldExpressionPrecedence := out.needParen(ie.Token)
 	if needParen {
@@ -651,10 +661,7 @@ func (ie IndexExpression) PrettyPrint(out *PrintState) *PrintState {
 	}
 	isDot := ie.Token.Type() == token.DOT
 	// 1.x would be read as the float `1.` followed by x.
-	_, leftIsInt := ie.Left.(*IntegerLiteral)
-	if fl, ok := ie.Left.(*FloatLiteral); ok && !strings.ContainsAny(fl.Literal(), ".eE") {
-		leftIsInt = true // an integer literal too big for int64 is a float node spelled without a dot.
-	}
+	leftIsInt := dotNeedsParens(ie.Left)
 	if isDot && leftIsInt {
 		out.Print("(")
 	}
